@@ -25,6 +25,8 @@
 //   nothing escapes it: well defined); on a second thread started from such an unwinding destructor.  The verdict,
 //   file, line, message and what() must be the same as in the direct context.
 // errno is poisoned (vf::poison_errno) immediately before every call into phosg.
+// Part "priors" (PRIOR HISTORIES): a mini-workload of the relation and expect_raises matrices on a fresh thread right after
+//   each entry of the shared catalogue of earlier, unrelated uses of phosg's helpers (vf_history.hh), same judges.
 //
 // Not read: expectation_failed::msg of expect_raises failures (for wrong-type failures it points into a destroyed
 // local std::string — an observation outside the statement); what() is read instead.
@@ -43,6 +45,7 @@
 #include "JSON.hh"
 #include "UnitTest.hh"
 #include "common.hh"
+#include "vf_history.hh"  // catalogue of earlier, unrelated uses of phosg's shared helpers (part "priors")
 
 using namespace std;
 using namespace phosg;  // the macros expand to unqualified expect_generic / expect_raises_fn, as in the repository tests
@@ -125,7 +128,12 @@ static void new_cell() {
 // Violation key: in the direct context it names macro and operand type / shape; in the other contexts it names the
 // context and the kind of wrong verdict only (macro and operands are in the case text), so that one context-dependent
 // defect yields a handful of keys.
+// Part "priors": set to the prior's family while the mini-workload runs; every key then names the family and the kind only.
+static const char* g_prior_family = nullptr;
+static bool g_prior_stateless = false;  // the same call is wrong on a fresh thread without any prior too: one family "any-history"
+
 static string vkey(Context cx, const string& opname, const string& tname, const char* kind) {
+  if (g_prior_family) return fmt("prior-history:%s:%s:%s", g_prior_stateless ? "any-history" : g_prior_family, opname.compare(0, 13, "expect_raises") == 0 ? "expect_raises" : "relation", kind);
   if (cx == CX_DIRECT) cell_direct_bad = true;
   else if (cell_direct_bad) cx = CX_DIRECT;
   if (cx == CX_DIRECT && tname.compare(0, 19, "operand-evaluation:") == 0) return fmt("%s:%s", tname.c_str(), kind);
@@ -717,6 +725,24 @@ static bool table_row_ok(int e) {
   return true;
 }
 
+// Verdict of one executed expect_raises call (shared by the matrix and by the prior-history mini-workload).
+static void judge_raises(Context cx, const string& et, bool should_pass, int b, const Outcome& o, const string& k2) {
+  if (o.threw_other) {
+    C->violation(vkey(cx, "expect_raises", et, "wrong-failure-type"), "expect_raises let something other than expectation_failed escape: " + o.other, k2);
+  } else if (should_pass && o.threw_ef) {
+    C->violation(vkey(cx, "expect_raises", et, "rejected"), "fn threw the expected type (or a type derived from it) but expect_raises failed: " + o.what, k2);
+  } else if (!should_pass && !o.threw_ef) {
+    C->violation(vkey(cx, "expect_raises", et, "accepted"),
+        b == B_RETURNS ? "fn returned normally but expect_raises succeeded" : "fn threw a type that is not derived from the expected one but expect_raises succeeded", k2);
+  } else if (o.threw_ef && b != B_THROW_FIRST + (int)X_EXPFAIL) {
+    // the failure is the helper's own (fn did not throw an expectation_failed): it names the call site
+    if (o.file != __FILE__ || o.line != o.site_line)
+      C->violation(vkey(cx, "expect_raises", "", "site"), fmt("failure carries %s:%" PRIu64 ", call site is %s:%" PRIu64, o.file.c_str(), o.line, __FILE__, o.site_line), k2);
+    if (o.what.find(__FILE__) == string::npos || !has_decimal(o.what, o.site_line))
+      C->violation(vkey(cx, "expect_raises", "", "what"), fmt("what() = \"%s\" does not contain the call site's file and decimal line %" PRIu64, o.what.c_str(), o.site_line), k2);
+  }
+}
+
 template <typename E>
 static void raises_row(int e) {
   for (int b = 0; b < NBEH; b++) {
@@ -750,20 +776,7 @@ static void raises_row(int e) {
       C->evaluations++;
       string k2 = kase + fmt(" (call flavour %d)", flavour) + (cx == CX_DIRECT ? string() : string(" [called ") + CTX_NAME[cx] + "]");
       compare_with_direct(cx, o, k2, false);
-      if (o.threw_other) {
-        C->violation(vkey(cx, "expect_raises", et, "wrong-failure-type"), "expect_raises let something other than expectation_failed escape: " + o.other, k2);
-      } else if (should_pass && o.threw_ef) {
-        C->violation(vkey(cx, "expect_raises", et, "rejected"), "fn threw the expected type (or a type derived from it) but expect_raises failed: " + o.what, k2);
-      } else if (!should_pass && !o.threw_ef) {
-        C->violation(vkey(cx, "expect_raises", et, "accepted"),
-            b == B_RETURNS ? "fn returned normally but expect_raises succeeded" : "fn threw a type that is not derived from the expected one but expect_raises succeeded", k2);
-      } else if (o.threw_ef && b != B_THROW_FIRST + (int)X_EXPFAIL) {
-        // the failure is the helper's own (fn did not throw an expectation_failed): it names the call site
-        if (o.file != __FILE__ || o.line != o.site_line)
-          C->violation(vkey(cx, "expect_raises", "", "site"), fmt("failure carries %s:%" PRIu64 ", call site is %s:%" PRIu64, o.file.c_str(), o.line, __FILE__, o.site_line), k2);
-        if (o.what.find(__FILE__) == string::npos || !has_decimal(o.what, o.site_line))
-          C->violation(vkey(cx, "expect_raises", "", "what"), fmt("what() = \"%s\" does not contain the call site's file and decimal line %" PRIu64, o.what.c_str(), o.site_line), k2);
-      }
+      judge_raises(cx, et, should_pass, b, o, k2);
       C->cls(fmt("ctx:%s:expect_raises:%s", CTX_NAME[cx], should_pass ? "must-pass" : "must-fail"));
     }
     C->cls(fmt("raises:%s:%s:%s", EXC_NAME[e], bn.c_str(), should_pass ? "must-pass" : "must-fail"));
@@ -790,6 +803,150 @@ static void raises_suite() {
   raises_row<user_runtime_error>(X_USER);
 }
 
+// --------------------------------------------------------------------------------------------------------
+// PRIOR HISTORIES (part "priors").  The parts above call nothing but the expectation helpers; what the same thread did
+// EARLIER with the helpers the failure text is built from (string_printf and friends) - one long formatted string, a long
+// run of short ones, a big join / fgets / escape - is never varied there.  For every entry of the shared catalogue
+// (vf_history.hh, ~280 priors, spread over the shards) and a seeded sample of two-step histories: fresh thread -> prior ->
+// a mini-workload of the relation matrix (six relations x int / string / double pairs with all three orderings and NaN,
+// expect, expect_msg with short / empty / long texts, the call sites on lines 999 .. 2147483000) and of the expect_raises
+// matrix (E in {exception, logic_error, runtime_error, expectation_failed} x fn in {returns, throws logic_error,
+// runtime_error, user type, expectation_failed, int, non-std class}: every outcome kind), judged by the SAME judge() /
+// judge_raises() as the main parts: verdict, file, line, message, and what() containing file, decimal line and message.
+// Keys: prior-history:<family of the prior>:<relation|expect_raises>:<kind>; the prior and the call are in the case text.
+
+template <typename E>
+static Outcome mini_raises_call(int b) {
+  Outcome o;
+  try { o.site_line = __LINE__; expect_raises(E, [b]() { behave(b, 1); }); } CATCH_INTO(o, false)
+  return o;
+}
+
+// One judged call of the mini-workload.  NAMING only: if it reports something, the same call is made once more on a fresh
+// thread without any prior; wrong there too -> the defect does not depend on the history and gets the single family
+// "any-history" (a stateless defect, which the main parts report anyway, must not multiply into one key per family).
+template <typename CallF, typename JudgeF>
+static void prior_judged(const string& kase, CallF&& call, JudgeF&& J, uint64_t& calls) {
+  C->crumb_s(kase);
+  calls++;
+  new_cell();
+  vf::poison_errno();
+  Outcome o = call();
+  ViolSnapshot snap(*C);
+  J(o);
+  if (!snap.changed()) return;
+  snap.rollback();
+  Outcome o2;
+  vf::in_fresh_thread([&] {
+    vf::poison_errno();
+    o2 = call();
+  });
+  new_cell();
+  J(o2);
+  bool stateless = snap.changed();
+  snap.rollback();
+  g_prior_stateless = stateless;
+  new_cell();
+  J(o);
+  g_prior_stateless = false;
+  C->count(stateless ? "prior_history_findings_also_without_history" : "prior_history_findings_only_with_history");
+}
+
+template <typename T>
+static void mini_relations(const char* tname, const vector<Operand<T>>& ops, const string& after, uint64_t& calls) {
+  for (const auto& a : ops)
+    for (const auto& b : ops)
+      for (int r = 0; r < NREL; r++) {
+        bool t = truth((Rel)r, a.rk, b.rk, a.nan || b.nan);
+        string kase = after + fmt("expect_%s(%s, %s) [%s]", REL_NAME[r], a.label, b.label, tname);
+        prior_judged(
+            kase,
+            [&]() -> Outcome {
+              switch (r) {
+                case EQ: return rel_eq<T>(a.v, b.v);
+                case NE: return rel_ne<T>(a.v, b.v);
+                case GT: return rel_gt<T>(a.v, b.v);
+                case GE: return rel_ge<T>(a.v, b.v);
+                case LT: return rel_lt<T>(a.v, b.v);
+                default: return rel_le<T>(a.v, b.v);
+              }
+            },
+            [&](const Outcome& o) { judge(CX_DIRECT, string("expect_") + REL_NAME[r], tname, t, o, kase, "lhs_operand", "rhs_operand", nullptr); }, calls);
+      }
+}
+
+static void prior_suite() {
+  uint64_t calls = 0;
+  static const string LONG_TEXT = string("a long message given at the call site: ") + string(180, 'm') + " (end of the long message)";
+  auto mini = [&](const vf::Prior& p) {
+    const string fam = p.name.find(" then ") != string::npos ? string("two-step") : p.family;
+    const string after = "on a fresh thread after prior [" + p.name + "]: ";
+    g_prior_family = fam.c_str();
+    struct Reset {
+      ~Reset() { g_prior_family = nullptr; }
+    } reset;
+    // relations: 2 x 2 x 6 cells per type, every ordering, NaN
+    mini_relations<int>("int", {{INT_MIN, 0, false, "INT_MIN"}, {INT_MAX, 4, false, "INT_MAX"}}, after, calls);
+    mini_relations<string>("string", {{string("a"), 1, false, "\"a\""}, {string("a\0b", 3), 2, false, "\"a\\0b\""}}, after, calls);
+    mini_relations<double>("double", {{-0.0, 2, false, "-0.0"}, {NAN, 0, true, "NaN"}}, after, calls);
+    C->cls(fmt("prior:%s:relations", fam.c_str()));
+    // expect / expect_msg
+    for (int v = 0; v < 2; v++) {
+      string kase = after + fmt("expect(%s)", v ? "true" : "false");
+      prior_judged(kase, [&] { return rel_expect(v != 0); }, [&](const Outcome& o) { judge(CX_DIRECT, "expect", "bool", v != 0, o, kase, "pred_value", nullptr, nullptr); }, calls);
+      for (const char* text : {"omg wut", "", "message with \"quotes\", %s %d %n and a\ttab", LONG_TEXT.c_str()}) {
+        string k2 = after + fmt("expect_msg(%s, \"%s\")", v ? "true" : "false", text);
+        prior_judged(k2, [&] { return rel_expect_msg(v != 0, text); }, [&](const Outcome& o) { judge(CX_DIRECT, "expect_msg", "bool", v != 0, o, k2, nullptr, nullptr, text); }, calls);
+      }
+    }
+    C->cls(fmt("prior:%s:expect_msg", fam.c_str()));
+    // call sites with four- to ten-digit line numbers (what() must contain the plain decimal line)
+    for (int which = 0; which < N_BIGLINE; which++)
+      for (int b : {1, 3}) {
+        int a = 2;
+        bool t = which == 0 ? a == b : which == 1 ? a < b : which == 2 ? a >= b : which == 3 ? a != b : which == 4 ? a < b : which == 5 ? a > b : which == 6 ? false : b == 3;
+        string kase = after + fmt("%s at one of the call sites on lines 999 .. 2147483000 of %s (site %d) with lhs=%d rhs=%d", BIGLINE_MACRO[which], __FILE__, which, a, b);
+        prior_judged(
+            kase, [&] { return bigline_call(which, a, b); },
+            [&](const Outcome& o) {
+              string k2 = kase + fmt(" [line %" PRIu64 "]", o.site_line);
+              if (which < 6)
+                judge(CX_DIRECT, BIGLINE_MACRO[which], "bigline", t, o, k2, which == 4 ? nullptr : "lhs_operand", which == 4 ? nullptr : "rhs_operand", which == 4 ? "text given at a big line" : nullptr);
+              else {
+                C->evaluations++;
+                judge_raises(CX_DIRECT, "bigline", t, which == 6 ? B_RETURNS : b == 3 ? B_THROW_FIRST + (int)X_RUNTIME : B_THROW_FIRST + (int)X_LOGIC, o, k2);
+              }
+            },
+            calls);
+      }
+    C->cls(fmt("prior:%s:bigline", fam.c_str()));
+    // expect_raises: 4 expected types x 7 behaviours, every outcome kind
+    static const int BEH[] = {B_RETURNS, B_THROW_FIRST + (int)X_LOGIC, B_THROW_FIRST + (int)X_RUNTIME, B_THROW_FIRST + (int)X_USER, B_THROW_FIRST + (int)X_EXPFAIL, B_THROW_INT, B_THROW_ALIEN};
+    static const int EXP[] = {X_EXCEPTION, X_LOGIC, X_RUNTIME, X_EXPFAIL};
+    for (int e : EXP)
+      for (int b : BEH) {
+        bool should_pass = b >= B_THROW_FIRST && b < B_THROW_FIRST + (int)NEXC && is_a(b - B_THROW_FIRST, e);
+        string kase = after + fmt("expect_raises(%s, fn) where fn %s", EXC_NAME[e], beh_name(b).c_str());
+        prior_judged(
+            kase,
+            [&] {
+              return e == X_EXCEPTION ? mini_raises_call<std::exception>(b) : e == X_LOGIC ? mini_raises_call<std::logic_error>(b) : e == X_RUNTIME ? mini_raises_call<std::runtime_error>(b)
+                                                                                                                                               : mini_raises_call<phosg::expectation_failed>(b);
+            },
+            [&](const Outcome& o) {
+              C->evaluations++;
+              judge_raises(CX_DIRECT, fmt("%s:%s", EXC_NAME[e], beh_name(b).c_str()), should_pass, b, o, kase);
+            },
+            calls);
+        C->cls(fmt("prior-raises:%s", should_pass ? "must-pass" : b == B_RETURNS ? "must-fail:returns" : b == B_THROW_INT || b == B_THROW_ALIEN ? "must-fail:non-std-object" : "must-fail:wrong-type"));
+      }
+    C->cls(fmt("prior:%s:expect_raises", fam.c_str()));
+  };
+  size_t threads = vf::for_each_prior(*C, mini, C->nshards, C->shard, C->qt<size_t>(3, 30));
+  C->count("prior_history_fresh_threads", threads);
+  C->count("prior_history_judged_calls", calls);
+}
+
 int main(int argc, char** argv) {
   vf::Ctx& c = vf::init(argc, argv);
   C = &c;
@@ -803,6 +960,7 @@ int main(int argc, char** argv) {
   if (only.empty() || only == "sideeffects") sideeffects_suite();
   if (only.empty() || only == "predicates") predicates_suite();
   if (only.empty() || only == "raises") raises_suite();
+  if (only.empty() || only == "priors") prior_suite();
   c.count("cells_total", c.shard == 0 ? cell_idx : 0);
   c.count("reps_per_cell", c.shard == 0 ? (uint64_t)REPS : 0);
   c.sample("expect_ge(INT_MIN, INT_MAX) must throw expectation_failed carrying c19.cc:<line of the call> and a message naming both operands");
